@@ -38,7 +38,7 @@ EXTENDS LCDSearch
 CONSTANTS KTab,                \* kernel table: kid |-> [n, cyc, np]   (see LCDSearch!Build)
           DeadlineTestFirst    \* BOOLEAN, named deviation F11
 
-VARIABLES par,       \* [kid, nw, to]: kernel id, number of workers (cpu_count()), to = (timeout # -1); never changes
+VARIABLES par,       \* [kid, n, nw, to]: kernel id and length, number of workers (cpu_count()), to = (timeout # -1); never changes
           wst,       \* worker -> "idle" | "run" | "done" | "killed"
           wpos,      \* worker -> number of roots of its slice already appended
           shared,    \* the Manager list, abstracted to the sequence of roots whose paths were appended
@@ -50,7 +50,7 @@ VARIABLES par,       \* [kid, nw, to]: kernel id, number of workers (cpu_count()
           joined     \* workers that were joined (reaped)
 vars == <<par, wst, wpos, shared, cpc, expired, timedOut, copied, result, joined>>
 
-K      == KTab[par.kid].n
+K      == par.n
 W      == 0..(par.nw - 1)
 Sl(w)  == Slice(K, par.nw, w)
 Cyc    == KTab[par.kid].cyc
@@ -86,10 +86,13 @@ Tick ==
   /\ UNCHANGED <<par, wst, wpos, shared, cpc, timedOut, copied, result, joined>>
 
 \* loop test `time.time() - start_time <= timeout`, then `any(p.is_alive() ...)`
+\* (the `else` branch begins with `self.timed_out = True`: with DeadlineTestFirst the flag is
+\*  already set when the coordinator looks at the first worker)
 Check ==
   /\ cpc = "poll"
   /\ cpc' = IF expired THEN "kill" ELSE IF Alive # {} THEN "sleep" ELSE "join"
-  /\ UNCHANGED <<par, wst, wpos, shared, expired, timedOut, copied, result, joined>>
+  /\ timedOut' = IF expired /\ DeadlineTestFirst THEN TRUE ELSE timedOut
+  /\ UNCHANGED <<par, wst, wpos, shared, expired, copied, result, joined>>
 
 Sleep ==
   /\ cpc = "sleep"
@@ -107,7 +110,7 @@ JoinAll ==
 \* the `else` branch of the while loop
 Kill ==
   /\ cpc = "kill"
-  /\ timedOut' = IF DeadlineTestFirst THEN TRUE ELSE (Alive # {})
+  /\ timedOut' = IF DeadlineTestFirst THEN timedOut ELSE (Alive # {})
   /\ wst' = [w \in W |-> IF wst[w] = "run" THEN "killed" ELSE wst[w]]
   /\ joined' = W
   /\ cpc' = "copy"
@@ -153,6 +156,7 @@ PartitionIsOk == PartitionOk(K, par.nw)
 
 \* C16: whatever the worker count and the interleaving, a search that was not cut short returns
 \* what the sequential search returns
+\* (Full is looked up in terminal states only: see the remark at LCDSearch!Build)
 ResultIndependentOfScheduleAndNW == (Done /\ ~Cut) => result = Full
 
 \* C19: every reported LCD is one of the untimed result (same key, same latency) ...
